@@ -152,7 +152,7 @@ def run(ctx):
     quick = ctx.tier == "quick"
     audit_forbidden(ctx)
     check_property_file(ctx, prop, allow_axioms=AX)
-    ok, out = build_harness(["kernels", "schedule"])
+    ok, out = build_harness(["kernels", "schedule", "lowrank"])
     ctx.oblig("harness-build", ok, out[-3000:])
     if not ok:
         return
@@ -247,6 +247,9 @@ def run(ctx):
                 violation(ctx, "implementation violates C08: %s" % bad[0], {"case": c, "failures": bad[:5]}, found_input=True)
     ctx.oblig("impl-audit-C08", nbad == 0, "%d failures" % nbad)
     ctx.notes["input_distribution"] = stats
+    # (3) the low-rank estimator driven directly with synthetic windows
+    import lowrank
+    lowrank.run_part(ctx, quick)
 
 
 _TB = [
